@@ -270,7 +270,7 @@ func (t CollectionPath) Of(i Item) Item {
 			return nil
 		})
 	}
-	if OfActor.Contains(t) && ActorTypes.Contains(i.GetType()) {
+	if typ := i.GetType(); OfActor.Contains(t) && (typ == ActorType || ActorTypes.Contains(typ)) {
 		OnActor(i, func(a *Actor) error {
 			it = t.ofActor(a)
 			return nil
